@@ -259,23 +259,30 @@ def thread_known_variants(body, only_from=None, budget=60, bools=False):
         seen = set()
         while stack and made < budget:
             cur, q, chain = stack.pop()
-            if (cur, q, tuple(chain)) in seen or len(chain) > 8:
+            if (cur, q, tuple(chain)) in seen or len(chain) > 24:
                 continue
             seen.add((cur, q, tuple(chain)))
             B = blocks[cur]
             t = B["term"]
             # the chain may only consist of blocks that do nothing but move values around
+            known_from_call = None
             if t["k"] == "call":
                 c = t["callee"].get("path")
                 if c == "std::ops::Try::branch" and t["dest"]["local"] == q and not t["dest"]["proj"] and t["args"][0]["k"] in ("copy", "move") and not t["args"][0]["place"]["proj"]:
                     q = t["args"][0]["place"]["local"]
+                elif c == "std::ops::FromResidual::from_residual" and t["dest"]["local"] == q and not t["dest"]["proj"]:
+                    # `return Err(e.into())` of the `?` operator: the value is the failure variant
+                    qty = body["locals"][q]["ty"]["s"]
+                    known_from_call = "Err" if qty.startswith("std::result::Result") else ("None" if qty.startswith("std::option::Option") else None)
+                    if known_from_call is None:
+                        continue
                 else:
                     continue
             elif t["k"] not in ("goto", "drop"):
                 continue
-            known = None
+            known = known_from_call
             ok = True
-            for s in reversed(B["stmts"]):
+            for s in reversed(B["stmts"] if known is None else []):
                 if s["k"] != "assign":
                     continue
                 if s["place"]["local"] == q and not s["place"]["proj"]:
@@ -347,7 +354,7 @@ def _closure_id_of(body, op):
 
 def _new_local(body, ty="?"):
     n = len(body["locals"])
-    body["locals"].append({"i": n, "ty": {"s": ty}, "mut": "true"})
+    body["locals"].append({"i": n, "ty": dict(ty) if isinstance(ty, dict) else {"s": ty}, "mut": "true"})
     return n
 
 
@@ -573,7 +580,7 @@ def desugar_combinators(raw):
                 if cb is None:
                     continue
                 sk = _loop_skeleton(body, args[0], span)
-                res = _new_local(body, "closure result")
+                res = _new_local(body, cb["locals"][0]["ty"])
                 if path.endswith("for_each"):
                     exit_bb = _new_block(body, [_assign(copy.deepcopy(dest), {"k": "aggregate", "kind": {"k": "tuple"}, "ops": []}, span)], {"k": "goto", "target": cont, "span": span})
                     entry = _inline_closure(body, cb, args[1], [sk["elem"]], res, sk["header"], span)
@@ -602,7 +609,7 @@ def desugar_combinators(raw):
                     if cb is None:
                         continue
                     acc = dest["local"]
-                    res = _new_local(body, "closure result")
+                    res = _new_local(body, cb["locals"][0]["ty"])
                     el = _new_local(body, "item")
                     elref = _new_local(body, "&item")
                     accref = _new_local(body, "&mut Vec")
@@ -638,7 +645,7 @@ def desugar_combinators(raw):
                 into_result = out_ty.startswith("std::result::Result<")
                 # collecting straight into a variable: that variable is the accumulator
                 acc = dest["local"] if (not into_result and not dest["proj"]) else _new_local(body, "std::vec::Vec<collected>")
-                res = _new_local(body, "closure result")
+                res = _new_local(body, cb["locals"][0]["ty"])
                 sk = _loop_skeleton(body, mt["args"][0], span)
                 init = _new_block(body, [], {"k": "call", "callee": _mk_callee("std::vec::Vec::<T>::new", "new"), "args": [], "dest": _pl(acc),
                                              "target": sk["pre"], "unwind": None, "fn_span": span, "span": span})
@@ -680,7 +687,7 @@ def desugar_combinators(raw):
                     continue
                 is_res = path.endswith("map_err")
                 src = _new_local(body, "scrutinee")
-                res = _new_local(body, "closure result")
+                res = _new_local(body, cb["locals"][0]["ty"])
                 d2 = _new_local(body, "isize")
                 adt = "std::result::Result" if is_res else "std::option::Option"
                 goodv, goodi, badv, badi = ("Ok", 0, "Err", 1) if is_res else ("Some", 1, "None", 0)
@@ -723,7 +730,7 @@ def desugar_combinators(raw):
                     continue
                 n0 = _new_local(body, "std::option::Option<inner item>")
                 d0 = _new_local(body, "isize")
-                res = _new_local(body, "closure result")
+                res = _new_local(body, cb["locals"][0]["ty"])
                 none_bb = _new_block(body, [_assign(copy.deepcopy(dest), {"k": "aggregate", "kind": {"k": "adt", "adt": "std::option::Option", "variant": "None", "idx": 0, "fields": []}, "ops": []}, span)],
                                      {"k": "goto", "target": cont, "span": span})
                 some_bb = _new_block(body, [_assign(copy.deepcopy(dest), {"k": "aggregate", "kind": {"k": "adt", "adt": "std::option::Option", "variant": "Some", "idx": 1, "fields": ["0"]}, "ops": [_mv(res)]}, span)],
@@ -751,7 +758,7 @@ def desugar_combinators(raw):
                 adt, on, wrap = _MATCH_COMBINATORS[path]
                 is_res = adt == "std::result::Result"
                 src = _new_local(body, "scrutinee")
-                res = _new_local(body, "closure result")
+                res = _new_local(body, cb["locals"][0]["ty"])
                 d2 = _new_local(body, "isize")
                 goodv, goodi, badv, badi = ("Ok", 0, "Err", 1) if is_res else ("Some", 1, "None", 0)
                 goodp = _mv(src, [{"k": "downcast", "variant": goodv, "idx": goodi, "adt": adt}, {"k": "field", "i": 0, "name": "0", "ty": "item"}])
